@@ -247,17 +247,25 @@ def run_property(prop: str, tier: str, checker, explanation: str, assumptions: l
                  prog: Program | None = None, write_evidence: bool = True, quiet: bool = False) -> int:
     t0 = time.time()
     out = sys.stdout
+    s = None
+    aborted = None
     try:
         prog = prog or Program()
         s = Session(prog, prop, tier)
         checker(s)
     except AnalysisError as e:
-        print(f"ANALYSIS-ERROR property={prop} {e}", file=out)
-        return 2
+        aborted = f"ANALYSIS-ERROR property={prop} {e}"
     except Exception as e:  # noqa: BLE001
         traceback.print_exc(file=sys.stderr)
-        print(f"ANALYSIS-ERROR property={prop} internal: {type(e).__name__}: {e}", file=out)
-        return 2
+        aborted = f"ANALYSIS-ERROR property={prop} internal: {type(e).__name__}: {e}"
+    if aborted is not None:
+        # a rule that already established a mismatch on a real construct stands, whatever broke afterwards: report it
+        # as the violation it is; an aborted analysis with nothing established is analysis-broken (exit 2)
+        if s is None or not new_findings(s):
+            print(aborted, file=out)
+            return 2
+        s.notes.append("analysis aborted after the findings below were established: " + aborted)
+        print(aborted + " (after confirmed findings; reporting them)", file=out)
     known = [k for k in load_known() if k.get("property") == prop]
     violations = 0
     seen_keys = set()
